@@ -4,6 +4,7 @@ three table modes, the interleaved FSE sequence bitstream (ZSTD_decodeSequence),
 the history `dict ++ output so far` (ZSTD_execSequence checks).
 -/
 import ZstdVerif.Model.Huf
+import ZstdVerif.Model.Rep
 namespace ZstdVerif.Block
 open ZstdVerif.Gen
 
@@ -207,26 +208,20 @@ def decodeBlock (src : Bytes) (start cSize : Nat) (ent : Entropy) (dict : Bytes)
     let ll0 := if cLL.baseValue == 0 then 1 else 0
     let mut offset := 0
     let mut ofValue := 0
+    -- Offset_Value as coded: offset + 3, or 1..3 for the repeat codes; the history update is Rep.resolve (theorem C01.rep_lockstep)
     if ofBits > 1 then
       let (x, r') := r.read ofBits
       r := r'
-      offset := cOF.baseValue + x
-      ofValue := offset + 3
-      rep := #[offset, rep[0]!, rep[1]!]
+      ofValue := cOF.baseValue + x + 3
     else if ofBits == 0 then
-      offset := rep[ll0]!
       ofValue := cOF.baseValue + 1
-      if ll0 == 1 then rep := #[offset, rep[0]!, rep[2]!]
     else
       let (x, r') := r.read 1
       r := r'
-      let code := cOF.baseValue + ll0 + x
       ofValue := cOF.baseValue + x + 1
-      let temp0 := if code == 3 then rep[0]! - 1 else rep[code]!
-      -- `temp -= !temp` : 0 becomes (size_t)-1, rejected by the executor
-      let temp := if temp0 == 0 then 0xFFFFFFFFFFFFFFFF else temp0
-      if code != 1 then rep := #[temp, rep[0]!, rep[1]!] else rep := #[temp, rep[0]!, rep[2]!]
-      offset := temp
+    let (off', rep') := Rep.resolve ⟨rep[0]!, rep[1]!, rep[2]!⟩ ofValue ll0
+    offset := off'
+    rep := #[rep'.r0, rep'.r1, rep'.r2]
     let mut mlen := cML.baseValue
     if cML.nbAddBits > 0 then
       let (x, r') := r.read cML.nbAddBits
